@@ -618,6 +618,7 @@ def gen_histories(run):
         k = 0
         queued = 0
         burst = 0
+        acct = 0
         while queued < off_m + 3 * per + 12:
             for _ in range(per):
                 c = r.random()
@@ -625,11 +626,15 @@ def gen_histories(run):
                 h.send(fill(k, n), retry, r.choice([None, None, k]))
                 k += 1
                 queued += 1
+                acct += n + 5
             if burst % 7 == 3:
                 h.send(fill(k, mp + 1 + r.randrange(0, 40)), retry); k += 1; queued += 2
+                acct += 2 * (mp + 5)
             burst += 1
             h.tick(1)
-        h.tick(6 if retry == 0 else 12)
+        # enough ticks for the queue to drain: while something is queued a datagram carries at least MAX_PAYLOAD_SIZE-205 accounted
+        # bytes (every unfragmented message here is at most 200+5) or 255 messages
+        h.tick(acct // (mp - 205) + queued // 255 + (6 if retry == 0 else 12))
         return h
 
     def long_history(role, mtu, total, per):
@@ -654,8 +659,8 @@ def gen_histories(run):
         off_d = r.choice([0, 1, 3, 20, r.randrange(0, 300)])
         hs.append(wrap(role, r.choice([512, 1096, 1500, r.randrange(512, 1501)]), retry, off_d, off_m, r.choice([1, 2, 5, 20, 60])))
     if run.thorough():
-        hs.append(long_history("client", 1500, 70000, 250))
-        hs.append(long_history("server", 512, 66000, 60))
+        hs.append(long_history("client", 1500, 70000, 150))
+        hs.append(long_history("server", 512, 66000, 40))
     for mtu in mtus:
         role = r.choice(["client", "server"])
         hs.append(boundary(role, mtu, r.choice([0, 1, -1]) if run.thorough() else 0))
@@ -689,11 +694,13 @@ def reassemble(msgs):
     message seq are dropped the way the receiver drops them"""
     out = []
     frags = {}
-    seen = set()
-    for seq, typ, p in msgs:
-        if seq in seen:
+    seen = {}
+    for pos, (seq, typ, p) in enumerate(msgs):
+        # a repetition of a message number is a re-send — unless more than 30000 messages were emitted in between: then the
+        # 16-bit counter has been round the ring and the number belongs to a new message (long-lived connections)
+        if seq in seen and pos - seen[seq] <= 30000:
             continue
-        seen.add(seq)
+        seen[seq] = pos
         if typ == 6:
             out.append(bytes(p))
         elif typ == 7:
@@ -798,6 +805,10 @@ def check_history(run, h):
         if (m0 == RING or any(x > RING - 400 for x in seqs)) and any(x < 400 for x in seqs):
             nontrivial = True
             run.count("hist_message_counter_wrapped")
+        elif not h.complete:
+            # retry modes against a silent peer: the re-sends (packed first) can starve the queue; the two-endpoint wrap
+            # sessions (net_history with seq0) carry the retry modes across the wrap with acknowledgements flowing
+            run.count("hist_wrap_starved_by_resends")
         else:
             raise RuntimeError("wrap history did not cross the message-counter wrap: the harness is not exercising the surface: %r"
                                % ((h.role, h.mtu, h.seq0, len(h.sent), RING in seqs, 1 in seqs, h.complete, len(h.events)),))
